@@ -1,6 +1,6 @@
 from xdsl.context import Context
 from xdsl.dialects import builtin, func, linalg, memref
-from xdsl.ir import Attribute, Operation, SSAValue
+from xdsl.ir import Attribute, Block, Operation, SSAValue
 from xdsl.passes import ModulePass
 from xdsl.pattern_rewriter import (
     GreedyRewritePatternApplier,
@@ -13,6 +13,17 @@ from xdsl.utils.hints import isa
 
 from snaxc.dialects import dart
 from snaxc.util.snax_memory import L1, L3
+
+
+def is_in_block(op: Operation, block: Block | None) -> bool:
+    """Check if op is in the block, or nested in an operation in the block."""
+    parent = op.parent_block()
+    while parent is not None:
+        if parent is block:
+            return True
+        parent_op = parent.parent_op()
+        parent = parent_op.parent_block() if parent_op is not None else None
+    return False
 
 
 class InitFuncMemorySpace(RewritePattern):
@@ -148,6 +159,8 @@ class InitStreamAndLinalgMemorySpace(RewritePattern):
                     isinstance(use.operation, memref.MemorySpaceCastOp)
                     and isinstance(use_type := use.operation.dest.type, builtin.MemRefType)
                     and use_type.memory_space == L1.attribute
+                    # the result of a cast in another region (e.g. a loop body) is not available here
+                    and is_in_block(op, use.operation.parent_block())
                 ):
                     cast_op = use.operation
                     break
